@@ -773,6 +773,9 @@ class AbstractExcelInPython(ABC):
         return datetime.datetime.combine(datetime.date.today(), datetime.time(0, 0))
 
     def _excel_value_to_string(self, value: Any):
+        if isinstance(value, self.EmptyCell):
+            return ''
+
         if isinstance(value, (datetime.datetime)):
             base_date = datetime.datetime(1899, 12, 30)
             return str((value - base_date).days)
